@@ -86,8 +86,8 @@ define: VP=str, VSTR_READ_DATA_UNOBSERVED, VSTR_INST=2, VSTR_OWN_REALLOC, U_FD, 
 src: str.c, obj.c
 enforce: spif_str_init_from_fd
 tier: B
-unwind: 3
-bound: the first read() delivers 1..4096 bytes, then up to two more calls with any outcome
+unwind: 4
+bound: the first read() delivers 1..4096 bytes, the second call has any outcome, from the third call on read() reports end of file (loop unwound 4 times, unwinding assertion on)
 backend: sat
 timeout: 300
 flags: --slice-formula
@@ -98,8 +98,8 @@ define: VP=str, VSTR_READ_DATA_UNOBSERVED, VSTR_INST=2, VSTR_OWN_REALLOC, U_FD, 
 src: str.c, obj.c
 enforce: spif_str_init_from_fd
 tier: B
-unwind: 3
-bound: the first read() fails with EINTR, then up to two more calls with any outcome
+unwind: 4
+bound: the first read() fails with EINTR, the second call has any outcome, from the third call on read() reports end of file (loop unwound 4 times, unwinding assertion on)
 backend: sat
 timeout: 300
 flags: --slice-formula
@@ -233,8 +233,8 @@ define: VP=ustr, VSTR_READ_DATA_UNOBSERVED, VSTR_INST=2, VSTR_OWN_REALLOC, U_FD,
 src: ustr.c, obj.c
 enforce: spif_ustr_init_from_fd
 tier: B
-unwind: 3
-bound: the first read() delivers 1..4096 bytes, then up to two more calls with any outcome
+unwind: 4
+bound: the first read() delivers 1..4096 bytes, the second call has any outcome, from the third call on read() reports end of file (loop unwound 4 times, unwinding assertion on)
 backend: sat
 timeout: 300
 flags: --slice-formula
@@ -245,8 +245,8 @@ define: VP=ustr, VSTR_READ_DATA_UNOBSERVED, VSTR_INST=2, VSTR_OWN_REALLOC, U_FD,
 src: ustr.c, obj.c
 enforce: spif_ustr_init_from_fd
 tier: B
-unwind: 3
-bound: the first read() fails with EINTR, then up to two more calls with any outcome
+unwind: 4
+bound: the first read() fails with EINTR, the second call has any outcome, from the third call on read() reports end of file (loop unwound 4 times, unwinding assertion on)
 backend: sat
 timeout: 300
 flags: --slice-formula
@@ -343,7 +343,7 @@ void harness(void)
 /* text := all bytes delivered by read() until it reports end of file (errors other than EINTR also end the input) */
 spif_bool_t VF(init_from_fd)(VT self, int fd)
 __CPROVER_requires(STR_OBJ(self) && fd >= 0)
-__CPROVER_requires(vg_read_calls == 0 && vg_read_total == 0 && vg_read_first == VG_FIRST)
+__CPROVER_requires(vg_read_calls == 0 && vg_read_total == 0 && vg_read_first == VG_FIRST && vg_read_limit == 2)
 #ifdef U_ERRNO_CLEAN
 __CPROVER_requires(vg_errno != EINTR)
 #endif
@@ -386,7 +386,7 @@ void harness(void)
 
 #ifdef U_NEWFD
 VT VF(new_from_fd)(int fd)
-__CPROVER_requires(fd >= 0 && vg_read_calls == 0 && vg_read_total == 0 && vg_read_first == VG_FIRST && vg_errno != EINTR)
+__CPROVER_requires(fd >= 0 && vg_read_calls == 0 && vg_read_total == 0 && vg_read_first == VG_FIRST && vg_read_limit == 2 && vg_errno != EINTR)
 __CPROVER_assigns(vg_read_calls, vg_read_total, vg_errno)
 __CPROVER_ensures(__CPROVER_is_fresh(R, sizeof(*R)) && STR_HAS_CLASS(R))
 __CPROVER_ensures(STR_NONEMPTY_POST(R) && __CPROVER_is_fresh(R->s, (size_t) R->size))
